@@ -149,16 +149,22 @@ impl<'input> Scalar<'input> {
     #[must_use]
     pub fn parse_from_cow(v: Cow<'input, str>) -> Self {
         if let Some(number) = v.strip_prefix("0x") {
-            if let Ok(i) = i64::from_str_radix(number, 16) {
-                return Self::Integer(i);
+            if is_unsigned_digits(number, 16) {
+                if let Ok(i) = i64::from_str_radix(number, 16) {
+                    return Self::Integer(i);
+                }
             }
         } else if let Some(number) = v.strip_prefix("0o") {
-            if let Ok(i) = i64::from_str_radix(number, 8) {
-                return Self::Integer(i);
+            if is_unsigned_digits(number, 8) {
+                if let Ok(i) = i64::from_str_radix(number, 8) {
+                    return Self::Integer(i);
+                }
             }
         } else if let Some(number) = v.strip_prefix('+') {
-            if let Ok(i) = number.parse::<i64>() {
-                return Self::Integer(i);
+            if is_unsigned_digits(number, 10) {
+                if let Ok(i) = number.parse::<i64>() {
+                    return Self::Integer(i);
+                }
             }
         }
         match &*v {
@@ -176,6 +182,14 @@ impl<'input> Scalar<'input> {
             }
         }
     }
+}
+
+/// Check that `s` is a non-empty sequence of digits in the given radix, without any sign.
+///
+/// The standard integer parsers accept a leading sign, which the core schema does not allow
+/// after a `0x`, `0o` or `+` prefix.
+fn is_unsigned_digits(s: &str, radix: u32) -> bool {
+    !s.is_empty() && s.chars().all(|c| c.is_digit(radix))
 }
 
 impl ScalarOwned {
